@@ -1189,7 +1189,11 @@ func isSQLNotAllowedByUser(c *SessionExecutor, stmtType int) bool {
 		return false
 	}
 
-	return stmtType == parser.StmtDelete || stmtType == parser.StmtInsert || stmtType == parser.StmtUpdate
+	switch stmtType {
+	case parser.StmtDelete, parser.StmtInsert, parser.StmtUpdate, parser.StmtReplace, parser.StmtDDL, parser.StmtLoad:
+		return true
+	}
+	return false
 }
 
 // 旧版本，这边有个版本对比的函数性能比较差，qps 大时损耗比较严重遂去掉，Contains 比 HasSuffix 性能差，去掉
